@@ -131,6 +131,7 @@ def sort_of(ty):
 
 
 DEFS = {}
+_BYTES_BY_KEY = {}
 INPUT_BYTES = {}     # id -> constant: symbolic input byte strings (their DEFS entry only states normal form)
 _OPAQUE = {}
 
@@ -297,16 +298,19 @@ class VBytes(Val):
     0 outside [0,len))."""
     ty = BYTES
 
-    def __init__(self, length, at, term=None):
+    def __init__(self, length, at, term=None, key=None):
         self.len = length
         self._at = at
         self._term = term
+        self.key = key if key is not None else (('term', term.get_id()) if term is not None else None)
 
     def at(self, i):
         return self._at(i)
 
     @property
     def t(self):
+        if self._term is None and self.key is not None and self.key in _BYTES_BY_KEY:
+            self._term = _BYTES_BY_KEY[self.key]      # the same slice of the same string: the same named constant
         if self._term is None:
             # a named constant; its exact (lambda) definition lives in DEFS and is only added to
             # queries that need it (see solve.py)
@@ -321,6 +325,8 @@ class VBytes(Val):
                 self._term = BytesS.mkb(ln, arr)
                 return self._term
             c = z3.Const(fresh_name('bdef'), BytesS)
+            if self.key is not None:
+                _BYTES_BY_KEY[self.key] = c
             import os, traceback
             if os.environ.get('PYVC_DEBUG_BDEF'):
                 traceback.print_stack(limit=8)
